@@ -60,7 +60,12 @@ def main():
     if benign:
         bad = 0
         for name, out in results:
-            noisy = [p for p, (c, _) in out.items() if c != 0]
+            acc = {}
+            ef = os.path.join(VERIF, 'benign', name, 'expected.json')
+            if os.path.exists(ef):
+                acc = json.load(open(ef)).get('accepted_undecided', {})
+            # exit 2 (analysis gives up, nothing claimed) is tolerated only where it is recorded with its reason; exit 1 never is
+            noisy = [p for p, (c, _) in out.items() if c != 0 and not (c == 2 and p in acc)]
             bad += bool(noisy)
             print('%-8s %-9s %s' % (name, 'FALSE-ALARM' if noisy else 'silent', ' '.join('%s[%s:%s]' % (p, out[p][0], out[p][1]) for p in noisy)))
         print('%d/%d silent' % (len(results) - bad, len(results)))
